@@ -329,6 +329,39 @@ def plan_c06(schema, rm, mi, desc, lines, meta, res, cap=4, pairs=False):
         res.samples.append({"message": desc, "case": lines[-1][:200]})
 
 
+def plan_c10(schema, rm, mi, desc, lines, meta, res, cap=3, corrupt=True):
+    from ..gen import checkedx as cx_
+    from ..gen import probex
+    gs, dl = adaptive_bounds(rm, cap)
+    big = schema.big
+    res.counters["shapes"] = res.counters.get("shapes", 0) + 1
+    for shape in values.size_vectors(rm.level, gs, dl):
+        inst = values.fill(rm.level, shape, values.ByteGen(0x10))
+        img, placed = codec.encode(schema, rm, inst, fill=0xEE)
+        toks = probex.extent_tokens(rm, placed)
+        L = len(img)
+        for n in range(0, L + 1):
+            cid = "p%d" % len(meta)
+            lines.append("P %s %d %d 1 %s %s" % (cid, mi, n, img.hex() if img else "-", toks))
+            meta[cid] = {"message": rm.name, "desc": desc, "mode": "truncate", "shape": values.shape_str(shape), "n": n, "image": img.hex()}
+        if corrupt:
+            for label, off, size in cx_.header_fields(rm, placed):
+                orig = int.from_bytes(img[off:off + size], "big" if big else "little")
+                mx = (1 << (8 * size)) - 1
+                for v in sorted({min(orig + 1, mx), mx, mx // 2 + 1, max(orig - 1, 0)}):
+                    if v == orig:
+                        continue
+                    b = bytearray(img)
+                    b[off:off + size] = v.to_bytes(size, "big" if big else "little")
+                    cid = "p%d" % len(meta)
+                    lines.append("P %s %d %d 0 %s %s" % (cid, mi, L, bytes(b).hex(), toks))
+                    meta[cid] = {"message": rm.name, "desc": desc, "mode": "corrupt:" + label.rsplit(".", 1)[1], "shape": values.shape_str(shape), "n": L,
+                                 "what": "%s=%d (orig %d)" % (label, v, orig), "image": bytes(b).hex()}
+        res.distinct.add((desc, values.shape_str(shape)))
+    if len(res.samples) < 2:
+        res.samples.append({"message": desc, "image": img.hex(), "extents": toks[:160]})
+
+
 def choice_strings(maxlen):
     out = []
     for n in range(1, maxlen + 1):
